@@ -137,11 +137,20 @@ def _to_assign_flag(stmts: List[ast.stmt], res: Optional[str], flag: str, in_loo
             s2 = copy.copy(s)
             s2.body = _to_assign_flag(list(s.body), res, flag, in_loop) or [ast.Pass()]
         elif isinstance(s, ast.Try):
-            if any(_may_return(h.body) for h in s.handlers) or _may_return(s.finalbody):
-                raise NotInlinable('return inside except/finally')
+            if _may_return(s.finalbody):
+                raise NotInlinable('return inside finally')
             s2 = copy.copy(s)
             s2.body = _to_assign_flag(list(s.body), res, flag, in_loop) or [ast.Pass()]
-            s2.orelse = _to_assign_flag(list(s.orelse), res, flag, in_loop)
+            s2.handlers = []
+            for h in s.handlers:
+                h2 = copy.copy(h)
+                h2.body = _to_assign_flag(list(h.body), res, flag, in_loop) or [ast.Pass()]
+                s2.handlers.append(h2)
+            orelse = _to_assign_flag(list(s.orelse), res, flag, in_loop)
+            if orelse and _may_return(s.body):
+                # the else clause runs only when the body fell off its end, not when it returned
+                orelse = [ast.copy_location(ast.If(test=ast.UnaryOp(op=ast.Not(), operand=ast.Name(id=flag, ctx=ast.Load())), body=orelse, orelse=[]), s)]
+            s2.orelse = orelse
         else:
             raise NotInlinable(type(s).__name__)
         out.append(s2)
@@ -287,6 +296,7 @@ class Inliner:
                 if not (i == 0 and isinstance(s, ast.Expr) and isinstance(s.value, ast.Constant) and isinstance(s.value.value, str))]
         self.counter += 1
         prefix = '%s_%d' % (callee.name.lstrip('_') or 'h', self.counter)
+        self.prog.inline_prefixes.add(prefix + '__')
         b = self._bind(callee, call, prefix)
         if b is None:
             return None
@@ -384,6 +394,9 @@ class Inliner:
             s.finalbody = self._inline_block(caller, s.finalbody, depth, stack)
             return [s]
         # simple statements
+        exp = self._expand_comprehension(caller, s)
+        if exp is not None:
+            return self._inline_block(caller, exp, depth, stack)
         if isinstance(s, ast.Expr):
             v = s.value
             awaited = isinstance(v, ast.Await)
@@ -398,6 +411,78 @@ class Inliner:
                 if pre:
                     return pre + [s]
         return [s]
+
+    def _expand_comprehension(self, caller: Any, s: ast.stmt) -> Optional[List[ast.stmt]]:
+        """`x = [elt for t in it if c]` whose element / filter calls an inlinable helper is written out as
+        `x = []; for t in it: if c: x.append(elt)` so that the helper can be inlined into the loop (same evaluation order;
+        the comprehension's variables are renamed when they would collide with a local of the caller)"""
+        if isinstance(s, ast.Assign) and len(s.targets) == 1 and isinstance(s.targets[0], ast.Name):
+            tgt, comp = s.targets[0], s.value
+        elif isinstance(s, ast.AnnAssign) and isinstance(s.target, ast.Name) and s.value is not None:
+            tgt, comp = s.target, s.value
+        else:
+            return None
+        if not isinstance(comp, (ast.ListComp, ast.SetComp, ast.DictComp)):
+            return None
+        if not any(isinstance(n, ast.Call) and self._callee(caller, n) is not None for n in ast.walk(comp)):
+            return None
+        if any(isinstance(n, (ast.Await, ast.NamedExpr, ast.Yield, ast.YieldFrom)) for n in ast.walk(comp)) or any(g.is_async for g in comp.generators):
+            return None
+        comp = copy.deepcopy(comp)
+        # variables bound by the comprehension; rename those that are also real locals / parameters of the caller
+        bound = {n.id for g in comp.generators for n in ast.walk(g.target) if isinstance(n, ast.Name)}
+        cnode = caller.orig_node if hasattr(caller, 'orig_node') else caller.node
+        real: Set[str] = {a.arg for a in cnode.args.args + cnode.args.kwonlyargs}
+        for n in ast.walk(cnode):
+            if isinstance(n, (ast.Assign, ast.AnnAssign, ast.AugAssign)):
+                tg = n.targets if isinstance(n, ast.Assign) else [n.target]
+                for t in tg:
+                    real |= {x.id for x in ast.walk(t) if isinstance(x, ast.Name)}
+            elif isinstance(n, ast.ExceptHandler) and n.name:
+                real.add(n.name)
+            elif isinstance(n, (ast.With, ast.AsyncWith)):
+                for it in n.items:
+                    if it.optional_vars is not None:
+                        real |= {x.id for x in ast.walk(it.optional_vars) if isinstance(x, ast.Name)}
+        clash = bound & real
+        if tgt.id in bound:
+            clash.add(tgt.id)
+        if clash:
+            self.counter += 1
+            prefix = 'comp_%d' % self.counter
+            self.prog.inline_prefixes.add(prefix + '__')
+            comp = _Rename({n_: ast.Name(id='%s__%s' % (prefix, n_), ctx=ast.Load()) for n_ in clash}).visit(comp)
+        name = tgt.id
+        if isinstance(comp, ast.ListComp):
+            empty: ast.AST = ast.List(elts=[], ctx=ast.Load())
+            add: ast.stmt = ast.Expr(value=ast.Call(func=ast.Attribute(value=ast.Name(id=name, ctx=ast.Load()), attr='append', ctx=ast.Load()), args=[comp.elt], keywords=[]))
+        elif isinstance(comp, ast.SetComp):
+            empty = ast.Call(func=ast.Name(id='set', ctx=ast.Load()), args=[], keywords=[])
+            add = ast.Expr(value=ast.Call(func=ast.Attribute(value=ast.Name(id=name, ctx=ast.Load()), attr='add', ctx=ast.Load()), args=[comp.elt], keywords=[]))
+        else:
+            empty = ast.Dict(keys=[], values=[])
+            add = ast.Assign(targets=[ast.Subscript(value=ast.Name(id=name, ctx=ast.Load()), slice=comp.key, ctx=ast.Store())], value=comp.value, type_comment=None)
+        inner: List[ast.stmt] = [add]
+        for g in reversed(comp.generators):
+            for cond in reversed(g.ifs):
+                inner = [ast.If(test=cond, body=inner, orelse=[])]
+            tg2 = copy.deepcopy(g.target)
+            for n in ast.walk(tg2):
+                if isinstance(n, (ast.Name, ast.Tuple, ast.List, ast.Starred, ast.Attribute, ast.Subscript)):
+                    n.ctx = ast.Store() if isinstance(n, (ast.Name, ast.Tuple, ast.List, ast.Starred)) else n.ctx
+            inner = [ast.For(target=tg2, iter=g.iter, body=inner, orelse=[], type_comment=None)]
+        if isinstance(s, ast.AnnAssign):
+            init: ast.stmt = ast.AnnAssign(target=ast.Name(id=name, ctx=ast.Store()), annotation=s.annotation, value=empty, simple=1)
+        else:
+            init = ast.Assign(targets=[ast.Name(id=name, ctx=ast.Store())], value=empty, type_comment=None)
+        out = [init] + inner
+        for o in out:
+            for n in ast.walk(o):
+                if not hasattr(n, 'lineno'):
+                    ast.copy_location(n, s)
+            ast.fix_missing_locations(o)
+        # the first iterable is evaluated before the target list exists in the original, after it here: harmless (an empty literal has no effect)
+        return out
 
     def _hoist(self, caller: Any, s: ast.AST, fld: str, depth: int, stack: Tuple[str, ...]) -> List[ast.stmt]:
         """replace the first inlinable, unconditionally evaluated call inside s.<fld> by a result variable; returns the statements to put before s"""
@@ -464,4 +549,10 @@ class Inliner:
             ast.fix_missing_locations(new)
             f.node = new
         self.prog.inlined_helpers = set(self.inlined_into)
+        # the inlined helpers' statements are analysed as part of their callers: take them out of the per-class method
+        # tables that rules iterate (they stay reachable by name through ClassInfo.inlined_methods / lookup_method)
+        for f in funcs:
+            if f.key in self.prog.inlined_helpers and f.cls is not None and f.cls.methods.get(f.name) is f:
+                del f.cls.methods[f.name]
+                f.cls.inlined_methods[f.name] = f
         # keep the class table in sync: ClassInfo.methods point to the same FuncInfo objects (node replaced in place)
